@@ -61,4 +61,9 @@ pub enum StateFSMError {
     /// Errors bubbled from DataKeeper.
     #[error(transparent)]
     KeeperError(#[from] KeeperError),
+
+    /// Errors occurred when an iteration end or a back iterator of a fold is met, but this fold has no
+    /// iteration to work with: it hasn't been started yet or all of them have been already finished.
+    #[error("fold FSM has no started iteration to finish or to return to")]
+    NoFoldIterationStarted,
 }
